@@ -32,6 +32,12 @@ pub fn parse_max_length(
     max_len: usize,
     field_name: &str,
 ) -> Result<String, ParseError> {
+    // A variable-length SWIFT component (e.g. 16x, 35x) has at least one character
+    if input.is_empty() {
+        return Err(ParseError::InvalidFormat {
+            message: format!("{} must not be empty", field_name),
+        });
+    }
     if input.len() > max_len {
         return Err(ParseError::InvalidFormat {
             message: format!(
